@@ -37,14 +37,29 @@ def main() -> int:
     sh(["git", "-C", str(WT), "clean", "-fdq", "--", "src", "codegen"])
     record: dict = {"confirmed_at": time.strftime("%Y-%m-%d %H:%M:%S"), "base_commit": sh(["git", "-C", str(WT), "rev-parse", "--short", "HEAD"]).stdout.strip()}
     demo = src / "demo.py"
-    r0 = sh([PY, str(demo)], env=env, cwd=str(WT), timeout=600)
+    # the demonstration is run where it was written (it may import that worktree's codegen/ through __file__)
+    in_place = (src / ".git").exists()
+    if in_place:
+        # run the demonstration where it was written: the sub-agent's worktree, with its change stashed and then restored
+        env_src = dict(os.environ, PYTHONPATH=str(src / "src"))
+        st = sh(["git", "-C", str(src), "stash"])
+        try:
+            r0 = sh([PY, str(demo)], env=env_src, cwd=str(src), timeout=900)
+        finally:
+            if "No local changes" not in st.stdout:
+                sh(["git", "-C", str(src), "stash", "pop"])
+        r1 = sh([PY, str(demo)], env=env_src, cwd=str(src), timeout=900)
+        record["demo_run_in"] = str(src)
+    else:
+        r0 = sh([PY, str(demo)], env=env, cwd=str(WT), timeout=600)
     record["demo_on_clean_tree"] = {"exit": r0.returncode, "tail": (r0.stdout + r0.stderr)[-300:]}
     a = sh(["git", "-C", str(WT), "apply", str(src / "patch.diff")])
     if a.returncode != 0:
         print("patch does not apply:", a.stderr)
         return 2
     record["files_changed"] = sh(["git", "-C", str(WT), "diff", "--stat"]).stdout.strip().splitlines()
-    r1 = sh([PY, str(demo)], env=env, cwd=str(WT), timeout=600)
+    if not in_place:
+        r1 = sh([PY, str(demo)], env=env, cwd=str(WT), timeout=600)
     record["demo_with_patch"] = {"exit": r1.returncode, "tail": (r1.stdout + r1.stderr)[-400:]}
     if not skip_tests:
         t = sh([PY, "-m", "pytest", "-q", "-p", "no:cacheprovider", "-k", "not _java", "-n", "8", "--ignore=tests/test_integration.py"], env=env, cwd=str(WT), timeout=1800)
